@@ -277,6 +277,34 @@ theorem autohint_align_weak_points_terminates (o : Nat → Nat → Bool) (h : Na
   · exact ⟨s', h1, h2⟩
   · simp at h3
 
+/-! ### From the entry states of the Rust
+
+Indices are offsets from `contour.first()`, so `contour.first()` is 0 and a contour (`first_ix ..= last_ix`) has
+`n ≥ 1` points.  translate/c02_autohint_loops.py checks the statements that set up each loop (table `ENTRY`). -/
+
+/-- compute_directions, backward walk: entered with `first_ix = contour.first()`, `prev_ix = contour.prev(first_ix)` -/
+theorem autohint_compute_directions_backward_walk_terminates_from_entry (o : Nat → Nat → Bool) (h : Nat → Nat → Nat)
+    (n tick : Nat) (hn : 0 < n) :
+    ∃ s', iter (dirsBackStep o h) (n + 1) ⟨cprev n 0, 0, n, tick⟩ = some s' :=
+  let ⟨s', h1, _⟩ := autohint_compute_directions_backward_walk_terminates o h ⟨cprev n 0, 0, n, tick⟩
+    (cprev_lt n 0 hn) hn
+  ⟨s', h1⟩
+
+/-- compute_directions: entered with `next_ix = first_ix`, where `first_ix` is `contour.first()` or one of the values
+`prev_ix` took in the backward walk — in any case a point of the contour -/
+theorem autohint_compute_directions_terminates_from_entry (o : Nat → Nat → Bool) (h : Nat → Nat → Nat)
+    (n firstIx tick : Nat) (hf : firstIx < n) :
+    ∃ s', iter (dirsStep o h) (n + 1) ⟨firstIx, firstIx, n, tick⟩ = some s' :=
+  let ⟨s', h1, _⟩ := autohint_compute_directions_terminates o h ⟨firstIx, firstIx, n, tick⟩ hf hf
+  ⟨s', h1⟩
+
+/-- build_segments start search: entered with `point_ix = contour.first()`, `last_ix = point_ix` -/
+theorem autohint_segment_start_search_terminates_from_entry (o : Nat → Nat → Bool) (h : Nat → Nat → Nat)
+    (n tick : Nat) (hn : 0 < n) :
+    ∃ s', iter (segStartStep o h) (n + 1) ⟨0, 0, n, tick⟩ = some s' :=
+  let ⟨s', h1, _⟩ := autohint_segment_start_search_terminates o h ⟨0, 0, n, tick⟩ hn hn
+  ⟨s', h1⟩
+
 /-! ### Non-vacuity -/
 
 /-- compute_directions, every point "near": once around a 4-point contour from `first_ix = 2` -/
